@@ -74,3 +74,11 @@ Definition run_intg1 (b : N) : string :=
   | _ => "T-"
   end.
 Definition run_intg_w (w : string) : string := show_sep "," run_intg1 (List.concat (parse_nss w)).
+
+(* canonical text of a literal / to_num text: print_f64 of what the text denotes; output = bits | text  (E when not a number) *)
+Definition run_canon1 (g : list N) : string :=
+  match parse_f64 (bytes_of_Ns g) with
+  | Some x => show_f64_bits x ++ "|" ++ string_of_bytes (print_f64 x)
+  | None => "E"
+  end.
+Definition run_canon_w (w : string) : string := show_sep "," run_canon1 (parse_nss w).
